@@ -79,17 +79,20 @@ func (m *MultiMetrics) Register(metadata Metadata) {
 	// Track the metric type for proper routing in Get()
 	m.metricTypes.Store(metadata.Name, metadata.Type)
 
-	// Initialize the value in the appropriate map based on metric type
+	// Initialize the value in the appropriate map based on metric type. A metric may be
+	// registered more than once (components created lazily register their metrics again), so an
+	// existing value must be kept: replacing it would reset the metric and lose updates that
+	// race with the registration.
 	switch metadata.Type {
 	case Counter:
-		m.counters.Store(metadata.Name, &atomic.Uint64{})
+		m.counters.LoadOrStore(metadata.Name, &atomic.Uint64{})
 	case Gauge:
 		// Initialize gauge with zero value (stored as float64 bits)
 		val := &atomic.Uint64{}
 		val.Store(math.Float64bits(0))
-		m.gauges.Store(metadata.Name, val)
+		m.gauges.LoadOrStore(metadata.Name, val)
 	case UpDown:
-		m.updowns.Store(metadata.Name, &atomic.Int64{})
+		m.updowns.LoadOrStore(metadata.Name, &atomic.Int64{})
 	case Histogram:
 		// Histograms are not stored, so nothing to do
 	}
